@@ -35,11 +35,19 @@ type Op struct {
 	Pad int    `json:"pad"`
 	Ack bool   `json:"ack,omitempty"`
 	End bool   `json:"end,omitempty"` // send: the frame carries END_STREAM (nothing follows on that stream)
+	// iws: the SETTINGS frame repeats the identifier, {INITIAL_WINDOW_SIZE=First,
+	// INITIAL_WINDOW_SIZE=N}; the last value is the one in force (RFC 7540 6.5.3)
+	Rep   bool `json:"rep,omitempty"`
+	First int  `json:"first,omitempty"`
 }
 
 // Case is one relay session with one DATA sender.
 type Case struct {
 	Reverse bool `json:"reverse,omitempty"` // the server sends, the client receives
+	// Lazy (with Reverse): the server answers a stream only just before its first DATA on
+	// it, so a WINDOW_UPDATE the client sends for the stream earlier reaches the relay
+	// before the relay has forwarded anything on that stream toward the client.
+	Lazy bool `json:"lazy,omitempty"`
 	Streams int  `json:"streams"`
 	Ops     []Op `json:"ops"`
 	Procs   int  `json:"procs,omitempty"`
@@ -63,11 +71,12 @@ type ref struct {
 	conn, iws int
 	win       []int
 	queue     [][]int
+	sent      []bool // a DATA frame has been sent on the stream
 	set       map[string]bool
 }
 
 func newRef(streams int) *ref {
-	r := &ref{conn: 65535, iws: 65535, win: make([]int, streams), queue: make([][]int, streams), set: map[string]bool{}}
+	r := &ref{conn: 65535, iws: 65535, win: make([]int, streams), queue: make([][]int, streams), sent: make([]bool, streams), set: map[string]bool{}}
 	for i := range r.win {
 		r.win[i] = r.iws
 	}
@@ -112,6 +121,7 @@ func (r *ref) apply(op Op) {
 				r.set["padding-only-data"] = true
 			}
 		}
+		r.sent[op.S] = true
 		if op.End {
 			r.set["end-stream-data"] = true
 			if op.N > 0 {
@@ -129,6 +139,9 @@ func (r *ref) apply(op Op) {
 	case "wu":
 		if op.N == 1 {
 			r.set["one-byte-increment"] = true
+		}
+		if op.S >= 0 && !r.sent[op.S] {
+			r.set["grant-before-first-frame"] = true
 		}
 		before, _ := r.blocked()
 		var qlen int
@@ -154,6 +167,9 @@ func (r *ref) apply(op Op) {
 		}
 		if op.N < r.iws {
 			r.set["window-lowered"] = true
+		}
+		if op.Rep && op.First != op.N {
+			r.set["repeated-settings-identifier"] = true
 		}
 		for s := range r.win {
 			r.win[s] += op.N - r.iws
@@ -185,6 +201,9 @@ func labels(c Case) map[string]bool {
 	if c.Reverse {
 		r.set["server-sends"] = true
 	}
+	if !(c.Reverse && c.Lazy) {
+		delete(r.set, "grant-before-first-frame") // the relay has forwarded HEADERS on every stream during setup
+	}
 	if c.Streams > 1 {
 		r.set["multi-stream"] = true
 	}
@@ -211,6 +230,7 @@ func genCase(t *rapid.T) Case {
 		Streams: rapid.IntRange(1, 4).Draw(t, "streams"),
 		Procs:   rapid.SampledFrom([]int{0, 0, 0, 2, 3}).Draw(t, "procs"),
 	}
+	c.Lazy = c.Reverse && rapid.Bool().Draw(t, "lazy")
 	padding := rapid.IntRange(0, 9).Draw(t, "padding") < 4 // cases without any padded frame keep the credit check exact to the end
 	n := rapid.IntRange(1, kit.N(25, 60)).Draw(t, "nops")
 	// what the sender may assume (it must stay inside the windows and frame
@@ -220,6 +240,16 @@ func genCase(t *rapid.T) Case {
 	pending := false
 	model := newRef(c.Streams)
 	closed := make([]bool, c.Streams)
+	if c.Lazy && rapid.Bool().Draw(t, "early_grant") {
+		// credit for a stream the server has not answered yet, and room on the connection
+		for _, op := range []Op{
+			{K: "wu", Pad: -1, S: rapid.IntRange(0, c.Streams-1).Draw(t, "early_stream"), N: rapid.SampledFrom([]int{1, 100, 16384, 1 << 20}).Draw(t, "early_inc")},
+			{K: "wu", Pad: -1, S: -1, N: 1 << 20},
+		} {
+			model.apply(op)
+			c.Ops = append(c.Ops, op)
+		}
+	}
 	for i := 0; i < n; i++ {
 		held, byConn := model.blocked()
 		kinds := []string{"send", "send", "send", "send", "send", "send", "wu", "wu", "iws", "iws", "maxframe", "ack"}
@@ -311,6 +341,10 @@ func genCase(t *rapid.T) Case {
 		case "iws":
 			op.N = rapid.SampledFrom([]int{0, 1, 2, 100, 1000, 16384, 16384, 65535, 65535, 1 << 20}).Draw(t, "iws")
 			op.Ack = rapid.Bool().Draw(t, "acknow")
+			if rapid.IntRange(0, 2).Draw(t, "repeated") == 0 {
+				op.Rep = true
+				op.First = rapid.SampledFrom([]int{0, 20, 1000, 65535, 70000, 1 << 20}).Draw(t, "iws_first")
+			}
 			rIWS = op.N
 			if op.Ack {
 				sIWS, sMax, pending = rIWS, rMax, false
@@ -453,8 +487,15 @@ func (x *session) stranded() []string {
 
 func shapeOf(c Case, upto int) string {
 	// the shape of a history for signatures: what kinds of steps it contained
-	l := labels(Case{Reverse: c.Reverse, Streams: c.Streams, Ops: c.Ops[:upto]})
+	if upto < len(c.Ops) {
+		upto++ // including the step just executed
+	}
+	l := labels(Case{Reverse: c.Reverse, Lazy: c.Lazy, Streams: c.Streams, Ops: c.Ops[:upto]})
 	switch {
+	case l["repeated-settings-identifier"]:
+		return "after-repeated-settings-identifier"
+	case l["grant-before-first-frame"]:
+		return "after-grant-before-first-frame"
 	case l["window-lowered"]:
 		return "after-initial-window-lowered"
 	case l["settings-change-with-data-queued"]:
@@ -565,13 +606,17 @@ func runOnce(c Case, bound time.Duration) (kit.Verdict, bool) {
 		x.ids = append(x.ids, id)
 		s.Client.WriteHeaders(h2kit.HeadersSpec{Stream: id, Pad: -1, Fields: []h2kit.Field{{N: ":method", V: "POST"}, {N: ":scheme", V: "https"}, {N: ":path", V: "/"}, {N: ":authority", V: "example.com"}}})
 	}
+	answered := make([]bool, c.Streams)
 	if c.Reverse {
 		last := x.ids[len(x.ids)-1]
 		if !s.Server.Wait(bound, func(r *h2kit.Rec) bool { return len(r.Streams[last]) > 0 || r.Done }) {
 			return kit.Failf("C09/session/setup/streams-not-opened", "request HEADERS did not reach the server within %v%s", bound, x.diag()), true
 		}
-		for _, id := range x.ids {
-			s.Server.WriteHeaders(h2kit.HeadersSpec{Stream: id, Pad: -1, Fields: []h2kit.Field{{N: ":status", V: "200"}}})
+		for i, id := range x.ids {
+			if !c.Lazy {
+				s.Server.WriteHeaders(h2kit.HeadersSpec{Stream: id, Pad: -1, Fields: []h2kit.Field{{N: ":status", V: "200"}}})
+				answered[i] = true
+			}
 		}
 	}
 	if !x.settle(nil) {
@@ -583,6 +628,10 @@ func runOnce(c Case, bound time.Duration) (kit.Verdict, bool) {
 		switch op.K {
 		case "send":
 			id := x.ids[op.S]
+			if c.Reverse && !answered[op.S] {
+				s.Server.WriteHeaders(h2kit.HeadersSpec{Stream: id, Pad: -1, Fields: []h2kit.Field{{N: ":status", V: "200"}}})
+				answered[op.S] = true
+			}
 			n, err := x.S.WriteData(id, kit.Bytes(uint64(i), op.N), op.Pad, op.End)
 			if err != nil {
 				x.fail(false, "C09/session/sender/connection-lost", "step %d: writing DATA: %v%s", i, err, x.diag())
@@ -601,7 +650,11 @@ func runOnce(c Case, bound time.Duration) (kit.Verdict, bool) {
 			}
 			x.R.WriteWindowUpdate(id, uint32(op.N))
 		case "iws":
-			x.R.WriteSettings(h2kit.Setting{ID: 4, Val: uint32(op.N)})
+			if op.Rep {
+				x.R.WriteSettings(h2kit.Setting{ID: 4, Val: uint32(op.First)}, h2kit.Setting{ID: 4, Val: uint32(op.N)})
+			} else {
+				x.R.WriteSettings(h2kit.Setting{ID: 4, Val: uint32(op.N)})
+			}
 			if op.Ack {
 				between = func() { x.S.AckSettings() }
 			}
@@ -616,7 +669,7 @@ func runOnce(c Case, bound time.Duration) (kit.Verdict, bool) {
 		if !x.settle(between) {
 			return x.v, x.slow
 		}
-		x.check(i, fmt.Sprintf("%s s=%d n=%d pad=%d", op.K, op.S, op.N, op.Pad))
+		x.check(i, fmt.Sprintf("%s s=%d n=%d pad=%d end=%v rep=%v first=%d", op.K, op.S, op.N, op.Pad, op.End, op.Rep, op.First))
 	}
 
 	// final drain: with ample credit everything accepted must come out
@@ -657,7 +710,7 @@ var propHistories = &kit.Prop[Case]{
 	ID: "C09", Name: "histories",
 	Rule: "flow-control histories on one relay session, either direction: DATA sends (sizes up to what the sender may assume, padded or not) on 1..4 streams interleaved with the receiver's SETTINGS_INITIAL_WINDOW_SIZE / MAX_FRAME_SIZE changes (processed by the sender at once or later) and stream/connection WINDOW_UPDATEs (1 octet .. 1 MiB); after every step the relay is flushed with barrier frames and the receiver's ledger (never beyond granted credit, never above its frame size), the sender's credit (exactly the flow-controlled length) and frame-granular no-stranding are checked; non-trivial = a window reaches 0, a SETTINGS change with data queued, a padded frame, or a 1-octet increment",
 	Gen:  genCase, Run: run, NonTrivial: nontrivial, Classes: classes,
-	Gates: map[string]float64{"end-stream-with-payload": 0.15, "window-reaches-zero": 0.15, "padded-data": 0.15, "one-byte-increment": 0.15, "settings-change-with-data-queued": 0.10, "data-queued": 0.3},
+	Gates: map[string]float64{"repeated-settings-identifier": 0.1, "grant-before-first-frame": 0.1, "end-stream-with-payload": 0.15, "window-reaches-zero": 0.15, "padded-data": 0.15, "one-byte-increment": 0.15, "settings-change-with-data-queued": 0.10, "data-queued": 0.3},
 }
 
 func TestHistories(t *testing.T) {
@@ -668,4 +721,45 @@ func TestHistories(t *testing.T) {
 	propHistories.Check(t, n)
 }
 
-func TestReplay(t *testing.T) { kit.Replay(t, propHistories, propFrameSize) }
+// propEarlyGrant: the receiver grants stream credit before the relay has forwarded
+// anything on that stream toward it, then exactly that much more than the initial
+// window is sent.
+var propEarlyGrant = &kit.Prop[Case]{
+	ID: "C09", Name: "early-grant",
+	Rule: "ALL combinations of: the client grants g in {1,100,16384,1 MiB} octets on a stream right after opening it (before the server has answered it; connection credit before or after), the server then answers and sends 65 535 + min(g,16384) octets on it, the last frame with or without END_STREAM, on the only stream or the second of two; oracle as for histories (ledger, exact credit, no stranding after every step); non-trivial = every case",
+	Run:  run, Classes: classes,
+}
+
+func TestEarlyGrant(t *testing.T) {
+	if kit.Race() {
+		t.Skip("sequential enumeration")
+	}
+	propEarlyGrant.Enumerate(t, func(yield func(Case) bool) {
+		for _, g := range []int{1, 100, 16384, 1 << 20} {
+			for _, connFirst := range []bool{false, true} {
+				for _, end := range []bool{false, true} {
+					for _, streams := range []int{1, 2} {
+						st := streams - 1
+						grant := []Op{{K: "wu", Pad: -1, S: st, N: g}, {K: "wu", Pad: -1, S: -1, N: 1 << 20}}
+						if connFirst {
+							grant[0], grant[1] = grant[1], grant[0]
+						}
+						last := g
+						if last > 16384 {
+							last = 16384
+						}
+						ops := append(grant,
+							Op{K: "send", Pad: -1, S: st, N: 16384}, Op{K: "send", Pad: -1, S: st, N: 16384},
+							Op{K: "send", Pad: -1, S: st, N: 16384}, Op{K: "send", Pad: -1, S: st, N: 16383},
+							Op{K: "send", Pad: -1, S: st, N: last, End: end})
+						if !yield(Case{Reverse: true, Lazy: true, Streams: streams, Ops: ops}) {
+							return
+						}
+					}
+				}
+			}
+		}
+	})
+}
+
+func TestReplay(t *testing.T) { kit.Replay(t, propHistories, propFrameSize, propEarlyGrant) }
